@@ -124,6 +124,13 @@ CHECKS = {
         "thorough": [sched("Harness_C20_linear_attempt_3", 32, timeout_ms=900000)],
         "assumptions": ["fairness: at most 2 failed non-blocking sends in total", "time is an arbitrary non-decreasing clock"],
     },
+    "C19": {
+        "explanation": "Callable, validation layer: CallArgs / CallResults / CallResultsSlice run against 6 function signatures (nullary, variadic, pointer/interface/map/slice parameters, multiple results) with <= 3 arguments or result targets drawn symbolically from a pool of 12 kinds of value (untyped nil, typed nil pointer, wrong kinds, pointers to variables of several types): never panic, build their thunk exactly when they report no error, and accept exactly what a direct call / direct assignment accepts (hand-written assignability table as independent oracle); callable.Call rejects non-function, nil-function and mandatory-input thunks without invoking anything.",
+        "quick": [seq("Harness_C19_callargs_validation"), seq("Harness_C19_callresults_validation"), seq("Harness_C19_callresultsslice_validation"), seq("Harness_C19_call_thunk_checks")],
+        "thorough": [],
+        "assumptions": ["reflect.TypeOf / Type.{NumIn,In,NumOut,Out,IsVariadic,Elem,Kind,AssignableTo} / ValueOf / Value.{Type,Kind,IsNil,Elem} are contract stubs answered by go/types", "reflect.FuncOf and reflect.MakeFunc are opaque: the thunks' bodies, reflect.Value.Call and therefore 'invokes exactly once with exactly these arguments and stores exactly the returned values' are outside the claim",
+                        "6 signatures, 12 value kinds, <= 3 arguments/targets"],
+    },
     "C11": {
         "explanation": "Lock-discipline obligations: every exported method (and unexported helper with its caller's lock) of Buffer, consumer, Channel, Workers, Worker and Exclusive.call is executed symbolically from an arbitrary valid state; on every path each access to a field listed in the guard table (engine/guards.go), and to the map / backing array behind it, holds the guarding lock in the required mode (ghost lockset in the sync models).",
         "quick": [seq("Harness_C11_buffer_methods", allow_block=True), seq("Harness_C11_consumer_methods", allow_block=True), seq("Harness_C11_channel_methods", allow_block=True),
